@@ -50,6 +50,8 @@ func (j job) make(seed int64, maxN int) (*Case, error) {
 		return genSubtree(seed, j.idx, j.a, j.b)
 	case "topology":
 		return genTopo(seed, j.idx)
+	case "lines":
+		return genLines(seed, j.idx)
 	}
 	return nil, fmt.Errorf("unknown phase %q", j.phase)
 }
@@ -253,6 +255,12 @@ func main() {
 		add(job{phase: "topology"})
 	}
 
+	// text sources in every line-length class (lines.go); appended last so that the
+	// case indices (and with them the cases) of the phases above stay what they were
+	for i, n := 0, rep.Pick(1500, 60000); i < n; i++ {
+		add(job{phase: "lines"})
+	}
+
 	nw := runtime.GOMAXPROCS(0)
 	if nw > 16 {
 		nw = 16
@@ -299,6 +307,10 @@ func main() {
 				localFlags[flags]++
 				localPhase[c.Phase]++
 				nt := len(c.Items) >= 2 && flags&(fDup|fSameBase|fNested|fAdjacent) != 0 && res.nTrue > 0 && res.nFalse > 0
+				if c.Src != nil {
+					nt = res.linesNT
+					fp += "|" + c.Src.shape()
+				}
 				if nt {
 					localNT++
 					rep.Nontrivial(fp)
@@ -311,7 +323,7 @@ func main() {
 					mu.Unlock()
 				}
 				report(c, res)
-				if nt && len(c.Items) <= 6 && len(res.findings) == 0 && rep.WantSample() {
+				if nt && c.Src == nil && len(c.Items) <= 6 && len(res.findings) == 0 && rep.WantSample() {
 					mu.Lock()
 					take := sampled[c.Phase] < 3
 					if take {
